@@ -118,6 +118,8 @@ theorem slot_setSlot_ne (t : TreeObj) (e e' : Elem) (b : Built) (h : e' ≠ e) :
 
 theorem setSlot_coords (t : TreeObj) (e : Elem) (b : Built) : (t.setSlot e b).coords = t.coords := by
   cases e <;> rfl
+theorem setSlot_count (t : TreeObj) (e : Elem) (b : Built) : (t.setSlot e b).count = t.count := by
+  cases e <;> rfl
 theorem setSlot_sys (t : TreeObj) (e : Elem) (b : Built) : (t.setSlot e b).sys = t.sys := by
   cases e <;> rfl
 theorem setSlot_metric (t : TreeObj) (e : Elem) (b : Built) : (t.setSlot e b).metric = t.metric := by
